@@ -195,7 +195,8 @@ Fixpoint process_context (fuel : nat) (d : directive) (fr : list (directive * li
       if ctx_allowed (d_kind cd) (d_kind d) then
         let is_url := is_http_method (d_kind d) && negb (beq (named d (bs "Path")) []) && kind_eqb (d_kind cd) KURL in
         if is_url then
-          if d_explicit cd then CErr (kw_err d CEIncorrectContextPath)
+          (* core.HasUnclosedExplicitContext(): no enclosing open context may be a parenthesised one *)
+          if existsb (fun x => d_explicit (fst x)) fr then CErr (kw_err d CEIncorrectContextPath)
           else
             (* the directive is appended to the ROOT list and becomes the current context (its Parent stays nil):
                every open frame is left for good *)
@@ -376,6 +377,19 @@ Section Scan.
         else CErr (scan_err s (lb l) CEUnknownLexeme)
       end.
 
+  (* scanProject's deferred AddIncludeTraceToError: an error that left the scan loop without a
+     trace gets the trace of the scanner stack as it is at that moment (also an error about a
+     directive that was read earlier, outside any include) *)
+  Definition with_scan_trace {A} (s : cstate) (r : cres A) : cres A :=
+    match r with
+    | CErr e =>
+      match ce_trace e with
+      | [] => CErr {| ce_file := ce_file e; ce_idx := ce_idx e; ce_kind := ce_kind e; ce_trace := stack_trace (cs_stack s) |}
+      | _ => CErr e
+      end
+    | x => x
+    end.
+
   (* scanProject: drain the current scanner, processEOF, pop the scanner stack *)
   Fixpoint scan_project (fuel : nat) (s : cstate) : cres cstate :=
     match fuel with
@@ -385,10 +399,10 @@ Section Scan.
       | Err p e => CErr (scan_err s p (CEScan e))
       | Panic w => CPanic w
       | OutOfFuel => CFuel
-      | Ok (x1, Some l) => process_lexeme (upd_sc s x1) l >>=c scan_project f
+      | Ok (x1, Some l) => with_scan_trace s (process_lexeme (upd_sc s x1) l) >>=c scan_project f
       | Ok (x1, None) =>
         (* processEOF *)
-        flush_cur (upd_sc s x1) >>=c fun s1 =>
+        with_scan_trace s (flush_cur (upd_sc s x1)) >>=c fun s1 =>
         if has_unclosed_explicit (cs_frames s1)
         then CErr (scan_err s1 (pos (sc_cfg (cs_sc s1)) - 1) CENotAllClosed)
         else
